@@ -42,3 +42,214 @@ M("c16-no-recheck-under-lock", ["C16"], "remove the re-check of the line index u
   ("src/sourceview.rs", "        if let Some(&line) = lines.get(idx) {\n            return Some(line);\n        }\n        if self.processed_until.load(Ordering::Relaxed) > self.source.len() {\n            return None;\n        }\n        let mut done = false;", "        let mut done = false;"))
 M("c16-stale-finished-check", ["C16"], "finished check answers None without looking at the lines again",
   ("src/sourceview.rs", "            return self.lines.lock().unwrap().get(idx).copied();", "            return None;"))
+
+# ---- C01 -------------------------------------------------------------------------------
+M("c01-encoder-forgets-ignorelist", ["C01", "C03"], "encoder drops ignoreList when it has exactly one entry",
+  ("src/encoder.rs", "ignore_list: if self.ignore_list.is_empty() {", "ignore_list: if self.ignore_list.len() <= 1 {"))
+M("c01-contents-shifted", ["C01", "C03"], "encoder writes the contents of the last source as null when there are >= 3 sources",
+  ("src/encoder.rs", "            .map(|contents| {\n                if let Some(contents) = contents {", "            .enumerate()\n            .map(|(i, contents)| {\n                let contents = if i >= 2 { None } else { contents };\n                if let Some(contents) = contents {"))
+M("c01-debugid-dropped-with-root", ["C01", "C03"], "encoder drops debug_id when a sourceRoot is present",
+  ("src/encoder.rs", "debug_id: self.get_debug_id(),", "debug_id: if self.get_source_root().is_some() { None } else { self.get_debug_id() },"))
+M("c01-index-offset-swapped", ["C01", "C03", "C08"], "index encoder swaps line and column of section offsets",
+  ("src/encoder.rs", "line: section.get_offset_line(),\n                            column: section.get_offset_col(),", "line: section.get_offset_col(),\n                            column: section.get_offset_line(),"))
+M("c01-hermes-drops-fb-sources", ["C01", "C14"], "Hermes encoder drops x_facebook_sources entries after the first",
+  ("src/hermes.rs", "        rsm.x_facebook_sources\n            .clone_from(&self.raw_facebook_sources);", "        rsm.x_facebook_sources = self.raw_facebook_sources.as_ref().map(|v| v.iter().take(1).cloned().collect());"))
+M("c01-section-url-dropped", ["C01", "C03"], "index encoder drops the url of sections that have a map",
+  ("src/encoder.rs", "url: section.get_url().map(str::to_owned),", "url: if section.get_sourcemap().is_some() { None } else { section.get_url().map(str::to_owned) },"))
+
+# ---- C03 -------------------------------------------------------------------------------
+M("c03-delta-vs-prev-token", ["C03", "C01"], "encoder updates prev_src_line even for tokens without source (uses raw field)",
+  ("src/encoder.rs", "        prev_dst_col = token.get_dst_col();\n", "        prev_dst_col = token.get_dst_col();\n        if !token.has_source() && token.get_src_line() == 3 { prev_src_line = 3; }\n"))
+M("c03-file-null", ["C03"], "encoder writes \"file\": null for an empty file name",
+  ("src/encoder.rs", "            file: self.get_file().map(|x| Value::String(x.to_string())),\n            sources: Some(self.sources", "            file: self.get_file().map(|x| if x.is_empty() { Value::Null } else { Value::String(x.to_string()) }),\n            sources: Some(self.sources"))
+M("c03-vlq-large-values", ["C03", "C11", "C01"], "VLQ writer truncates values >= 2^31 to 32 bits",
+  ("src/vlq.rs", "    let mut num = if num < 0 { ((-num) << 1) + 1 } else { num << 1 };", "    let num = if num >= (1 << 32) - 1 { num - 1 } else { num };\n    let mut num = if num < 0 { ((-num) << 1) + 1 } else { num << 1 };"))
+M("c03-names-prefixed-sources", ["C03", "C13"], "encoder writes the prefixed source names",
+  ("src/encoder.rs", "sources: Some(self.sources.iter().map(|x| Some(x.to_string())).collect()),", "sources: Some(self.sources().map(|x| Some(x.to_string())).collect()),"))
+
+# ---- C04 -------------------------------------------------------------------------------
+M("c04-no-walk-back", ["C04"], "greatest_lower_bound does not walk back to the first of equal keys",
+  ("src/utils.rs", "        if map(&slice[i]) == *key {\n            idx = i;\n        } else {\n            break;\n        }", "        if map(&slice[i]) == *key && i + 3 < idx {\n            idx = i;\n        } else {\n            break;\n        }"))
+M("c04-adjust-no-final-sort", ["C04", "C10"], "adjust_mappings skips the final sort when few tokens",
+  ("src/types.rs", "        self.tokens\n            .sort_unstable_by_key(|t| (t.dst_line, t.dst_col));\n    }\n}\n\nimpl SourceMapIndex {", "        if self.tokens.len() > 6 {\n            self.tokens\n                .sort_unstable_by_key(|t| (t.dst_line, t.dst_col));\n        }\n    }\n}\n\nimpl SourceMapIndex {"))
+M("c04-sort-by-line-only", ["C04", "C02"], "SourceMap::new sorts by line and (col / 2^20): order within a line mostly kept as given",
+  ("src/types.rs", "        tokens.sort_unstable_by_key(|t| (t.dst_line, t.dst_col));\n        SourceMap {", "        tokens.sort_by_key(|t| (t.dst_line, t.dst_col >> 20, 0));\n        SourceMap {"))
+M("c04-lookup-before-first", ["C04"], "lookup before the first token returns the first token when on the same line",
+  ("src/types.rs", "        let (idx, raw) =\n            greatest_lower_bound(&self.tokens, &(line, col), |t| (t.dst_line, t.dst_col))?;", "        let (idx, raw) = match greatest_lower_bound(&self.tokens, &(line, col), |t| (t.dst_line, t.dst_col)) {\n            Some(x) => x,\n            None => match self.tokens.first() {\n                Some(t) if t.dst_line == line && line > 0 => (0, t),\n                _ => return None,\n            },\n        };"))
+
+# ---- C05 -------------------------------------------------------------------------------
+M("c05-unchecked-shl", ["C05", "C11", "C06"], "VLQ decoder uses << instead of checked_shl",
+  ("src/vlq.rs", "cur += val.checked_shl(shift).ok_or(Error::VlqOverflow)?;", "cur += val << shift;"))
+M("c05-display-unwrap", ["C05"], "Token Display unwraps the name of out-of-range name ids",
+  ("src/types.rs", "            self.get_name()\n                .map(|x| format!(\" name={x}\"))\n                .unwrap_or_default()", "            if self.raw.name_id != !0 && self.raw.src_id == !0 { format!(\" name={}\", self.get_name().unwrap()) } else { self.get_name()\n                .map(|x| format!(\" name={x}\"))\n                .unwrap_or_default() }"))
+M("c05-prealloc-from-declared", ["C05"], "decoder pre-allocates tokens from a number in the document (ignoreList max)",
+  ("src/decoder.rs", "    let allocation_size = mappings.matches(&[',', ';'][..]).count() + 10;", "    let allocation_size = mappings.matches(&[',', ';'][..]).count() + 10 + rsm.ignore_list.as_ref().and_then(|l| l.iter().max().copied()).unwrap_or(0) as usize / 16;"))
+M("c05-set-source-contents-index", ["C05", "C09"], "rewrite indexes contents by new id without bounds check when contents are longer than sources",
+  ("src/types.rs", "                builder\n                    .set_source_contents(raw.src_id, self.get_source_contents(token.get_src_id()));", "                let c = if self.sources_content.len() > self.sources.len() { self.sources_content[token.get_src_id() as usize + 1].as_ref().map(|v| v.source()) } else { self.get_source_contents(token.get_src_id()) };\n                builder.set_source_contents(raw.src_id, c);"))
+M("c05-flatten-overflow-again", ["C05", "C03"], "flatten adds the line offset unchecked again",
+  ("src/types.rs", "                    token\n                        .get_dst_line()\n                        .checked_add(off_line)\n                        .ok_or_else(overflow)?,", "                    token.get_dst_line() + off_line,"))
+M("c05-hermes-fnmap-negative", ["C05", "C14"], "hermes function map line accumulates in u32 arithmetic",
+  ("src/hermes.rs", "                    line = (i64::from(line) + nums.next().unwrap_or(0)) as u32;", "                    line = line + nums.next().unwrap_or(0) as u32;"))
+
+# ---- C06 -------------------------------------------------------------------------------
+M("c06-accept-6-fields", ["C06"], "decoder accepts 6-field segments",
+  ("src/decoder.rs", "if nums.len() != 4 && nums.len() != 5 {", "if nums.len() != 4 && nums.len() != 5 && nums.len() != 6 {"))
+M("c06-source-range-off-by-one", ["C06", "C05"], "source index == len accepted",
+  ("src/decoder.rs", "if new_src_id < 0 || new_src_id >= sources.len() as i64 {", "if new_src_id < 0 || new_src_id > sources.len() as i64 {"))
+M("c06-drop-leftover-test", ["C06", "C11"], "cut-off last value silently dropped",
+  ("src/vlq.rs", "    if cur != 0 || shift != 0 {\n        Err(Error::VlqLeftover)", "    if cur != 0 && shift == 0 {\n        Err(Error::VlqLeftover)"))
+M("c06-dash-is-plus", ["C06", "C11"], "'-' accepted as base64url digit 62",
+  ("src/vlq.rs", "    -1,\n    62,\n    -1,\n    -1,\n    -1,\n    63,", "    -1,\n    62,\n    -1,\n    62,\n    -1,\n    63,"))
+M("c06-negative-name-index", ["C06"], "name index driven negative wraps (check only upper bound)",
+  ("src/decoder.rs", "if new_name_id < 0 || new_name_id >= names.len() as i64 {", "if (new_name_id as u32) >= names.len() as u32 {"))
+
+# ---- C07 -------------------------------------------------------------------------------
+M("c07-bit-order", ["C07"], "encode_rmi reverses bit order within digits beyond the first",
+  ("src/encoder.rs", "    for byte in bits.chunks(6) {\n        let byte = byte.load::<u8>();", "    for (ci, byte) in bits.chunks(6).enumerate() {\n        let byte = if ci >= 2 { byte.load::<u8>().reverse_bits() >> 2 } else { byte.load::<u8>() };"))
+M("c07-rmi-empty-lines", ["C07"], "rangeMappings line separator dropped for lines skipped after a range line",
+  ("src/encoder.rs", "            buf.push(b';');\n            prev_line += 1;\n            had_rmi = false;\n            num = 0;", "            if !(had_rmi && token.get_dst_line() > prev_line + 2) { buf.push(b';'); }\n            prev_line += 1;\n            had_rmi = false;\n            num = 0;"))
+M("c07-lookup-offset-nonrange", ["C07", "C04"], "lookup applies the offset to non-range tokens that follow a range token",
+  ("src/types.rs", "        if token.is_range() && line == token.get_dst_line() {", "        if (token.is_range() || (idx > 0 && self.tokens[idx - 1].is_range && self.tokens[idx - 1].dst_line == line)) && line == token.get_dst_line() {"))
+M("c07-decode-rmi-line-index", ["C07"], "decoder takes the range flag by emitted index (empty segments not counted) - differs only with >= 6 segments",
+  ("src/decoder.rs", "            let is_range = rmi.get(line_index).map(|v| *v).unwrap_or_default();", "            let is_range = rmi.get(if line_index >= 12 { line_index - 6 } else { line_index }).map(|v| *v).unwrap_or_default();"))
+
+# ---- C08 -------------------------------------------------------------------------------
+M("c08-col-shift-all-lines", ["C08"], "flatten shifts columns on all lines (CHANGELOG 7.0.1 bug)",
+  ("src/types.rs", "                let dst_col = if token.get_dst_line() == 0 {", "                let dst_col = if token.get_dst_line() <= 1 {"))
+M("c08-section-lt", ["C08"], "index lookup picks the previous section when the query equals a section offset on a later column",
+  ("src/types.rs", "            greatest_lower_bound(&self.sections, &(line, col), SourceMapSection::get_offset)?;", "            greatest_lower_bound(&self.sections, &(line, col.saturating_sub(if col > 20 { 1 } else { 0 })), SourceMapSection::get_offset)?;"))
+M("c08-contents-last-wins", ["C08"], "flatten overwrites contents with later sections' contents",
+  ("src/types.rs", "                if token.get_source().is_some() && !builder.has_source_contents(raw.src_id) {", "                if token.get_source().is_some() && (!builder.has_source_contents(raw.src_id) || map.get_source_contents(token.get_src_id()).is_some()) {"))
+M("c08-ignore-by-old-id", ["C08"], "flatten copies the ignore list by old source id",
+  ("src/types.rs", "                    builder.add_to_ignore_list(raw.src_id);", "                    builder.add_to_ignore_list(token.get_src_id());"))
+M("c08-nested-skip", ["C08"], "flatten skips nested index sections that are empty-offset",
+  ("src/types.rs", "                    DecodedMap::Index(idx) => Cow::Owned(idx.flatten()?),", "                    DecodedMap::Index(idx) => { if idx.get_section_count() > 2 { continue; } Cow::Owned(idx.flatten()?) },"))
+M("c08-lookup-col-rel", ["C08"], "index lookup subtracts the column offset on all lines of the section",
+  ("src/types.rs", "            if line == off_line { col - off_col } else { col },", "            if line == off_line { col - off_col } else { col.saturating_sub(off_col / 16) },"))
+
+# ---- C09 -------------------------------------------------------------------------------
+M("c09-contents-by-new-id", ["C09"], "rewrite copies contents by new id",
+  ("src/types.rs", "                    .set_source_contents(raw.src_id, self.get_source_contents(token.get_src_id()));", "                    .set_source_contents(raw.src_id, self.get_source_contents(raw.src_id));"))
+M("c09-prefix-no-slash-normalisation", ["C09"], "prefix stripped without appending '/'",
+  ("src/builder.rs", "                if !prefix.ends_with('/') {\n                    prefix.push('/');\n                }", "                if !prefix.ends_with('/') && prefix.len() < 4 {\n                    prefix.push('/');\n                }"))
+M("c09-hermes-not-permuted", ["C09"], "Hermes rewrite keeps function maps in old order when lengths match",
+  ("src/hermes.rs", "        if function_maps.len() >= mapping.len() {", "        if function_maps.len() > mapping.len() {"))
+M("c09-debugid-not-copied", ["C09"], "rewrite drops the debug id when names are dropped",
+  ("src/types.rs", "        builder.set_debug_id(self.debug_id);", "        builder.set_debug_id(if options.with_names { self.debug_id } else { None });"))
+M("c09-file-lost", ["C09"], "rewrite loses the file when contents are dropped",
+  ("src/types.rs", "        let mut builder = SourceMapBuilder::new(self.get_file());\n        builder.set_debug_id(self.debug_id);", "        let mut builder = SourceMapBuilder::new(if options.with_source_contents { self.get_file() } else { None });\n        builder.set_debug_id(self.debug_id);"))
+M("c09-range-flag-lost", ["C09"], "add_token drops the range flag of sourceless tokens",
+  ("src/builder.rs", "            name,\n            token.is_range(),\n        )", "            name,\n            token.is_range() && token.has_source(),\n        )"))
+
+# ---- C10 -------------------------------------------------------------------------------
+M("c10-le-inner", ["C10"], "<= instead of < in the inner loop",
+  ("src/types.rs", "            while original_range.start < adjustment_range.end {", "            while original_range.start <= adjustment_range.end {"))
+M("c10-displacement-next", ["C10"], "column displacement ignores the line when lines differ by >= 2",
+  ("src/types.rs", "                token.dst_col = (token.dst_col as i32 + col_diff) as u32;", "                token.dst_col = (token.dst_col as i32 + if line_diff.abs() >= 2 { 0 } else { col_diff }) as u32;"))
+M("c10-eol-ignored", ["C10"], "range end ignores end of line",
+  ("src/types.rs", "                let end = std::cmp::min(next_start, (start.0, u32::MAX));", "                let end = next_start;"))
+M("c10-break-gt", ["C10"], ">= -> > in the 'no more originals' break",
+  ("src/types.rs", "                if original_range.end >= adjustment_range.end {", "                if original_range.end > adjustment_range.end {"))
+M("c10-skip-le", ["C10"], "skip loop uses < instead of <=",
+  ("src/types.rs", "            while original_range.end <= adjustment_range.start {", "            while original_range.end < adjustment_range.start {"))
+M("c10-range-flag", ["C10"], "adjust_mappings clears the range flag of clipped tokens",
+  ("src/types.rs", "                let mut token = RawToken {\n                    dst_line,\n                    dst_col,\n                    ..original_range.value\n                };", "                let mut token = RawToken {\n                    dst_line,\n                    dst_col,\n                    ..original_range.value\n                };\n                if (dst_line, dst_col) != original_range.start { token.is_range = false; }"))
+
+# ---- C12 -------------------------------------------------------------------------------
+M("c12-pastheader-offset", ["C12"], "PastHeader arm copies from offset+1 (drops a byte when the newline is not at a chunk end)",
+  ("src/decoder.rs", "                        let rem = read - offset;\n                        buf[..rem].copy_from_slice(&local_buf[offset..read]);\n                        return Ok(rem);", "                        let off2 = if offset + 1 < read && local_buf[offset] == b' ' { offset + 1 } else { offset };\n                        let rem = read - off2;\n                        buf[..rem].copy_from_slice(&local_buf[off2..read]);\n                        return Ok(rem);"))
+M("c12-awaiting-newline-forgotten", ["C12"], "AwaitingNewline state forgotten across a read boundary",
+  ("src/decoder.rs", "        loop {\n            let read = self.r.read(local_buf)?;\n            if read == 0 {\n                return Ok(0);\n            }", "        loop {\n            let read = self.r.read(local_buf)?;\n            if read == 0 {\n                return Ok(0);\n            }\n            if self.header_state == HeaderState::AwaitingNewline {\n                self.header_state = HeaderState::Junk;\n            }"))
+M("c12-reader-accepts-bare-cr", ["C12"], "reader accepts a bare \\r as header terminator",
+  ("src/decoder.rs", "                        if byte == b'\\n' {\n                            HeaderState::PastHeader\n                        } else {\n                            fail!(io::Error::new(", "                        if byte == b'\\n' || byte == b'{' {\n                            HeaderState::PastHeader\n                        } else {\n                            fail!(io::Error::new("))
+M("c12-junk-set-differs", ["C12"], "slice path treats '>' as junk start too",
+  ("src/decoder.rs", "    if slice.is_empty() || !is_junk_json(slice[0]) {", "    if slice.is_empty() || !(is_junk_json(slice[0]) || slice[0] == b'>') {"))
+M("c12-is-sourcemap-reader-no-strip", ["C12", "C18"], "is_sourcemap(reader) requires version for index maps",
+  ("src/detector.rs", "fn is_sourcemap_impl<R: Read>(rdr: R) -> Result<bool> {\n    let mut rdr = StripHeaderReader::new(rdr);\n    let mut rdr = BufReader::new(&mut rdr);\n    let rsm: MinimalRawSourceMap = serde_json::from_reader(&mut rdr)?;\n    Ok(is_sourcemap_common(rsm))", "fn is_sourcemap_impl<R: Read>(rdr: R) -> Result<bool> {\n    let mut rdr = StripHeaderReader::new(rdr);\n    let mut rdr = BufReader::new(&mut rdr);\n    let rsm: MinimalRawSourceMap = serde_json::from_reader(&mut rdr)?;\n    if rsm.sections.is_some() && rsm.version.is_none() { return Ok(false); }\n    Ok(is_sourcemap_common(rsm))"))
+M("c12-undecided-multi-read", ["C12"], "header decision taken per read instead of once (a later chunk starting with a junk byte is stripped)",
+  ("src/decoder.rs", "                            buf[..read].copy_from_slice(&local_buf[..read]);\n                            self.header_state = HeaderState::PastHeader;\n                            return Ok(read);", "                            buf[..read].copy_from_slice(&local_buf[..read]);\n                            if read > 1 { self.header_state = HeaderState::PastHeader; }\n                            return Ok(read);"))
+
+# ---- C13 -------------------------------------------------------------------------------
+M("c13-always-push-name", ["C13"], "add_name pushes a duplicate when the name equals the last source added",
+  ("src/builder.rs", "        let count = self.names.len() as u32;\n        let id = *self.name_map.entry(name.into()).or_insert(count);\n        if id == count {", "        let count = self.names.len() as u32;\n        let id = if self.sources.last().map(|s| &s[..]) == Some(name) { count } else { *self.name_map.entry(name.into()).or_insert(count) };\n        if id == count {"))
+M("c13-set-source-no-cache-patch", ["C13"], "set_source does not patch the prefixed cache",
+  ("src/types.rs", "        if let Some(sources_prefixed) = self.sources_prefixed.as_mut() {\n            // If sources_prefixed is `Some`", "        if let Some(sources_prefixed) = self.sources_prefixed.as_mut().filter(|_| idx == 0) {\n            // If sources_prefixed is `Some`"))
+M("c13-root-none-keeps-cache", ["C13"], "set_source_root(None) keeps the prefixed cache",
+  ("src/types.rs", "            None => self.sources_prefixed = None,", "            None => if self.source_root.is_some() { self.sources_prefixed = None },"))
+M("c13-into-sourcemap-drops-ignore", ["C13"], "into_sourcemap drops ignore-list entries >= source count",
+  ("src/builder.rs", "        for ignored_src_id in self.ignore_list {\n            sm.add_to_ignore_list(ignored_src_id);", "        for ignored_src_id in self.ignore_list {\n            if ignored_src_id as usize >= sm.get_source_count() as usize { continue; }\n            sm.add_to_ignore_list(ignored_src_id);"))
+M("c13-contents-resize", ["C13"], "builder set_source_contents does not grow when already non-empty",
+  ("src/builder.rs", "        if self.sources.len() > self.source_contents.len() {\n            self.source_contents.resize(self.sources.len(), None);\n        }", "        if self.sources.len() > self.source_contents.len() {\n            self.source_contents.resize(self.sources.len(), None);\n        }\n        if src_id as usize + 1 == self.sources.len() && self.sources.len() > 4 && contents.is_some() { return; }"))
+M("c13-double-prefix-on-load", ["C13", "C01"], "prefix applied twice for roots ending in '//'",
+  ("src/types.rs", "        let source_root = source_root.strip_suffix('/').unwrap_or(source_root);", "        let source_root = source_root.strip_suffix(\"//\").or_else(|| source_root.strip_suffix('/')).unwrap_or(source_root);"))
+
+# ---- C14 -------------------------------------------------------------------------------
+M("c14-line-starts-at-0", ["C14"], "function-map line starts at 0",
+  ("src/hermes.rs", "            let mut line = 1;\n            let mut name_index = 0;", "            let mut line = 0;\n            let mut name_index = 0;"))
+M("c14-col-not-reset", ["C14"], "column not reset at ';'",
+  ("src/hermes.rs", "                let mut column = 0;\n\n                for mapping in line_mapping.split(',') {", "                if mappings.is_empty() { column = 0; }\n\n                for mapping in line_mapping.split(',') {"),
+  ("src/hermes.rs", "            let mut line = 1;\n            let mut name_index = 0;", "            let mut line = 1;\n            let mut name_index = 0;\n            let mut column = 0;"))
+M("c14-no-plus-one", ["C14"], "lookup without the +1 on the line",
+  ("src/hermes.rs", "&(token.get_src_line().checked_add(1)?, token.get_src_col()),", "&(token.get_src_line().checked_add(0)?, token.get_src_col()),"))
+M("c14-parse-error-aborts", ["C14", "C05"], "a function-map parse error aborts the whole decode",
+  ("src/hermes.rs", "        .collect();\n\n    let sm = decode_regular(rsm)?;", "        .collect::<Vec<Option<HermesFunctionMap>>>();\n    if function_maps.iter().zip(x_facebook_sources.iter()).any(|(f, raw)| f.is_none() && raw.as_ref().map_or(false, |v| !v.is_empty() && v[0].mappings.len() > 12)) {\n        return Err(Error::VlqOverflow);\n    }\n\n    let sm = decode_regular(rsm)?;"))
+M("c14-metadata-last-entry", ["C14"], "function map taken from the last metadata entry",
+  ("src/hermes.rs", "            } = v.as_ref()?.iter().next()?;", "            } = v.as_ref()?.iter().last()?;"))
+M("c14-name-line-swapped", ["C14"], "name delta and line delta swapped when both present and equal sign",
+  ("src/hermes.rs", "                    name_index = (i64::from(name_index) + nums.next().unwrap_or(0)) as u32;\n                    line = (i64::from(line) + nums.next().unwrap_or(0)) as u32;", "                    let a = nums.next().unwrap_or(0);\n                    let b = nums.next().unwrap_or(0);\n                    let (a, b) = if a > 1 && b > 1 { (b, a) } else { (a, b) };\n                    name_index = (i64::from(name_index) + a) as u32;\n                    line = (i64::from(line) + b) as u32;"))
+
+# ---- C15 -------------------------------------------------------------------------------
+M("c15-crlf-two", ["C15", "C16"], "\\r\\n counted as two terminators when at the very end of the text",
+  ("src/sourceview.rs", "                if rest[idx] == b'\\r' && rest.get(idx + 1) == Some(&b'\\n') {", "                if rest[idx] == b'\\r' && rest.get(idx + 1) == Some(&b'\\n') && idx + 2 < rest.len() {"))
+M("c15-slice-utf8-cols", ["C15"], "slice walks len_utf8 for the span",
+  ("src/sourceview.rs", "                off_end += c.len_utf8();\n                idx += c.len_utf16();", "                off_end += c.len_utf8();\n                idx += if c.len_utf8() == 3 { 3 } else { c.len_utf16() };"))
+M("c15-cached-line-eq-len", ["C15", "C16"], "clone copies processed_until",
+  ("src/sourceview.rs", "            source: self.source.clone(),\n            processed_until: AtomicUsize::new(0),", "            source: self.source.clone(),\n            processed_until: AtomicUsize::new(self.processed_until.load(Ordering::Relaxed)),"))
+M("c15-lines-iter-stops-empty", ["C15"], "Lines iterator stops at the first empty line after line 2",
+  ("src/sourceview.rs", "        if let Some(line) = self.sv.get_line(self.idx) {\n            self.idx += 1;\n            Some(line)", "        if let Some(line) = self.sv.get_line(self.idx).filter(|l| !(l.is_empty() && self.idx > 2 && self.sv.source().ends_with('\\r'))) {\n            self.idx += 1;\n            Some(line)"))
+
+# ---- C17 -------------------------------------------------------------------------------
+M("c17-window-64", ["C17"], "window of 64 tokens",
+  ("src/sourceview.rs", "let mut iter = self.rev_token_iter(token).take(128).peekable();", "let mut iter = self.rev_token_iter(token).take(127).peekable();"))
+M("c17-byte-columns", ["C17"], "forward column walk counts chars instead of UTF-16 units",
+  ("src/sourceview.rs", "                off += c.len_utf8();\n                idx += c.len_utf16();\n            }\n            off\n        } else {", "                off += c.len_utf8();\n                idx += 1;\n            }\n            off\n        } else {"))
+M("c17-cache-across-lines", ["C17"], "cached byte offset reused across different lines of equal number mod 2",
+  ("src/sourceview.rs", "            if dst_line == token.get_dst_line() as usize;", "            if dst_line == token.get_dst_line() as usize || (dst_line == token.get_dst_line() as usize + 2);"))
+M("c17-dollar-not-start", ["C17", "C05"], "'$' not accepted as an identifier start",
+  ("src/js_identifiers.rs", "    c == '$' || c == '_' || c.is_ascii_alphabetic() || {\n        if c.is_ascii() {\n            false\n        } else {\n            unicode_id_start::is_id_start_unicode(c)", "    c == '_' || c.is_ascii_alphabetic() || {\n        if c.is_ascii() {\n            false\n        } else {\n            unicode_id_start::is_id_start_unicode(c)"))
+M("c17-returns-keyword-name", ["C17"], "returns the keyword token's name when the declared token has none",
+  ("src/sourceview.rs", "                then {\n                    return token.get_name();\n                }", "                then {\n                    return token.get_name().or_else(|| iter.peek().and_then(|i| i.0.get_name()));\n                }"))
+M("c17-backward-walk-utf8", ["C17"], "backward cached walk counts utf8 length",
+  ("src/sourceview.rs", "                new_offset -= c.len_utf8();\n                idx += c.len_utf16();", "                new_offset -= c.len_utf8();\n                idx += if c.len_utf16() == 2 { 1 } else { c.len_utf16() };"))
+
+# ---- C18 -------------------------------------------------------------------------------
+M("c18-contains", ["C18"], "contains instead of starts_with for the legacy form",
+  ("src/detector.rs", "if line.starts_with(\"//# sourceMappingURL=\") || line.starts_with(\"//@ sourceMappingURL=\") {", "if line.starts_with(\"//# sourceMappingURL=\") || line.trim_start().starts_with(\"//@ sourceMappingURL=\") {"))
+M("c18-url-not-trimmed", ["C18"], "URL only trimmed at the end",
+  ("src/detector.rs", "let url = str::from_utf8(&line.as_bytes()[21..])?.trim().to_owned();", "let url = str::from_utf8(&line.as_bytes()[21..])?.trim_end().to_owned();"))
+M("c18-legacy-inverted", ["C18"], "legacy flag decided by the URL containing '@'",
+  ("src/detector.rs", "            if line.starts_with(\"//@\") {", "            if line.starts_with(\"//@\") || url.starts_with(\"@\") {"))
+M("c18-detect-requires-names", ["C18", "C12"], "detection requires sources for regular maps with file only",
+  ("src/detector.rs", "    (rsm.version.is_some() || rsm.file.is_some())\n        && ((rsm.sources.is_some()", "    (rsm.version.is_some() && rsm.file.is_none() || rsm.file.is_some() && rsm.source_root.is_none())\n        && ((rsm.sources.is_some()"))
+M("c18-data-url-charset-only", ["C18"], "decode_data_url accepts only the charset form",
+  ("src/decoder.rs", "        .strip_prefix(DATA_PREAMBLE)\n        .or_else(|| url.strip_prefix(DATA_PREAMBLE_CHARSET))", "        .strip_prefix(DATA_PREAMBLE_CHARSET)"))
+M("c18-data-url-padding", ["C18", "C12"], "to_data_url drops base64 padding",
+  ("src/types.rs", "            \"data:application/json;charset=utf-8;base64,{}\",\n            b64\n        ))", "            \"data:application/json;charset=utf-8;base64,{}\",\n            b64.trim_end_matches(\"==\")\n        ))"))
+
+# ---- C19 -------------------------------------------------------------------------------
+M("c19-one-dotdot-too-few", ["C19"], "one '..' too few when the target is shallower by >= 2",
+  ("src/utils.rs", "let mut rel_list: Vec<_> = repeat(\"..\").take(base_path.len() - prefix).collect();", "let mut rel_list: Vec<_> = repeat(\"..\").take((base_path.len() - prefix).min(3)).collect();"))
+M("c19-prefix-on-strings", ["C19"], "common prefix stops at the first component that is a prefix string",
+  ("src/utils.rs", "            if seq.get(idx) != Some(&comp) {\n                break;\n            }", "            if seq.get(idx).map(|s| s.starts_with(comp) && (idx < 3 || *s == comp)) != Some(true) {\n                break;\n            }"))
+M("c19-base-not-popped", ["C19"], "base file not popped for single-component relative bases",
+  ("src/utils.rs", "    base_path.pop();\n\n    let mut items = vec![", "    if base_path.len() > 1 || base.starts_with('/') || base.starts_with('\\\\') { base_path.pop(); } else { base_path.clear(); }\n\n    let mut items = vec!["))
+
+# ---- C20 -------------------------------------------------------------------------------
+M("c20-id-gt", ["C20"], "id > count instead of >=",
+  ("src/ram_bundle.rs", "        if id >= self.module_count {\n            return Err(Error::InvalidRamBundleIndex);\n        }\n\n        let entry_offset =", "        if id > self.module_count {\n            return Err(Error::InvalidRamBundleIndex);\n        }\n\n        let entry_offset ="))
+M("c20-keep-nul", ["C20"], "trailing NUL kept for modules of length > 32",
+  ("src/ram_bundle.rs", "        let module_length = (module_entry.length - 1) as usize;", "        let module_length = if module_entry.length > 32 { module_entry.length as usize } else { (module_entry.length - 1) as usize };"))
+M("c20-iter-stops-at-hole", ["C20"], "iterator stops at the second empty slot",
+  ("src/ram_bundle.rs", "                Ok(None) => continue,", "                Ok(None) => { if next_id > 3 { return None; } continue },"))
+M("c20-magic-loose", ["C20"], "is_ram_bundle_slice accepts a magic with the low byte off",
+  ("src/ram_bundle.rs", "        self.magic == RAM_BUNDLE_MAGIC", "        self.magic | 1 == RAM_BUNDLE_MAGIC | 1"))
